@@ -9,6 +9,7 @@ import re, os, collections
 
 REPO = os.environ.get('VERIF_REPO', '/repo')
 DROPS = collections.Counter()
+LOST_HINTS = []      # (anchor) of ghost hints whose anchor line no longer exists: the hint is skipped, the function is flagged
 
 
 class AnchorLost(Exception):
@@ -272,13 +273,15 @@ def emit_fn(sig, body, requires='', ensures='', hints=(), hints_all=(), loops=()
         check_hint(text)
         i = body.find(anchor)
         if i < 0:
-            raise AnchorLost('hint anchor %r' % anchor)
+            LOST_HINTS.append(anchor)      # ghost code only: emit the function without this hint
+            continue
         ls = body.rfind('\n', 0, i) + 1
         body = body[:ls] + text + '\n' + body[ls:]
     for anchor, text in hints_all:
         check_hint(text.replace('@@', ''))
         if anchor not in body:
-            raise AnchorLost('hint anchor %r' % anchor)
+            LOST_HINTS.append(anchor)
+            continue
         lines = body.split('\n')
         out = []
         for ln in lines:
